@@ -650,6 +650,15 @@ m("c11-merge-naked-delete-keeps-start-tail-from-cursor", "C11", "nomt/src/merkle
         ("nomt/src/merkle/seek.rs",
          "                if key_path == Some(&overlay_key) {\n                    // The leaf data has been updated in the overlay.\n                    beatree_leaf_idx += 1;\n                }",
          "                final_leaf_data_collection\n                    .extend_from_slice(&collected_leaf_data[start_idx..beatree_leaf_idx]);\n                if key_path == Some(&overlay_key) {\n                    // The leaf data has been updated in the overlay.\n                    beatree_leaf_idx += 1;\n                }\n                start_idx = beatree_leaf_idx;")])
+# ---- C09 K2: one delta per commit ----
+m("benign-finish-delta-by-match", "C09", "nomt/src/lib.rs",
+  "        let rollback_delta = self\n            .rollback_delta\n            .take()\n            .map(|delta_builder| delta_builder.finalize(&actuals));",
+  "        let rollback_delta = match self.rollback_delta.take() {\n            Some(delta_builder) => Some(delta_builder.finalize(&actuals)),\n            None => None,\n        };",
+  None)
+m("c09-finish-delta-only-with-writes", "C09", "nomt/src/lib.rs",
+  "        let rollback_delta = self\n            .rollback_delta\n            .take()\n            .map(|delta_builder| delta_builder.finalize(&actuals));",
+  "        let rollback_delta = match self.rollback_delta.take() {\n            Some(delta_builder) if !actuals.is_empty() => Some(delta_builder.finalize(&actuals)),\n            _ => None,\n        };",
+  "C09|K2|Session::finish|one-delta-per-commit")
 # ---- C11 S10: every updated merkle page is handed on ----
 m("c11-frozen-iter-skips-empty-diffs", "C11", "nomt/src/merkle/mod.rs",
   "        self.0.into_iter().flatten().map(move |updated_page| {",
